@@ -36,6 +36,7 @@ var (
 	srcRGBA64 *image.RGBA64
 	srcNRGBA  *image.NRGBA
 	srcYCbCr  *image.YCbCr
+	srcBig    *image.NRGBA
 	files     map[string][]byte
 )
 
@@ -58,6 +59,10 @@ func setup() {
 	}
 	for i := range srcYCbCr.Cb {
 		srcYCbCr.Cb[i], srcYCbCr.Cr[i] = byte(i*11), byte(255-i*3)
+	}
+	srcBig = image.NewNRGBA(image.Rect(0, 0, 96, 64))
+	for i := range srcBig.Pix {
+		srcBig.Pix[i] = byte(i*29 + i>>9)
 	}
 	files = map[string][]byte{}
 	for _, s := range seeds.Built() {
@@ -191,6 +196,17 @@ func run(op trial.Op) uint64 {
 			s.EncodeImage(dst, src, par)
 		}
 		return digest(*pix)
+	case "TransformBig":
+		// a transform large enough to still be running when the next goroutines start theirs (crowd trials)
+		par := []int{2, 4, 8, 16}[a%4]
+		b := srcBig.Bounds()
+		d := image.NewRGBA64(b)
+		if a&4 == 0 {
+			s.LineariseImage(d, srcBig, par)
+		} else {
+			s.EncodeImage(d, srcBig, par)
+		}
+		return digest(d.Pix)
 	case "ConvertImage":
 		par := 1 + a%8
 		switch a % 3 {
